@@ -38,6 +38,9 @@ func genNetConfig(ch *Chooser, prop, tier string, disabled map[string]bool) *Run
 		}
 		cfg.TimerBaseMs = append(cfg.TimerBaseMs, b)
 	}
+	// in some runs every correct node runs the library's real election timer on the fake clock (bases differ by a
+	// microsecond per node so that no two timers ever expire at the same instant)
+	cfg.RealTimer = ch.Pick("real-timers", 6) == 5
 	if !cfg.FaultFree {
 		cfg.Director = []string{"", "", "split-commit", "split-prepare", "split-commit", "two-locks"}[ch.Pick("director", 6)]
 		cfg.DropPm = drawRate(ch, "r-drop")
@@ -52,6 +55,9 @@ func genNetConfig(ch *Chooser, prop, tier string, disabled map[string]bool) *Run
 		cfg.ValidateFailPm = drawRate(ch, "r-vfail") / 2
 		cfg.CommitFailPm = drawRate(ch, "r-cfail") / 2
 		cfg.CommitteeFailPm = drawRate(ch, "r-cmfail") / 3
+		// a failed committee lookup parks the worker in the library's retry pause while its input channels fill up:
+		// several select cases are then ready at once, so every node runs under worker-select control (hook H1)
+		cfg.WorkerControl = cfg.CommitteeFailPm > 0
 		cfg.SendErrPermille = drawRate(ch, "r-senderr") / 4
 		if len(cfg.Byz) > 0 {
 			cfg.ByzPm = []int{20, 60, 150, 300}[ch.Pick("r-byz", 4)]
